@@ -402,6 +402,28 @@ func init() {
 					break
 				}
 			}
+			// part-count dimension: structured locations of 6..14 (thorough 24) parts
+			{
+				maxParts := 14
+				if r.Tier == "thorough" {
+					maxParts = 24
+				}
+				for parts := 6; parts <= maxParts; parts++ {
+					L, locs := manyPartLocs(parts)
+					for _, l := range locs {
+						c := c05Case{L: L, Loc: locdom.Encode(l)}
+						r.Evals.Add(1)
+						r.Journal(c)
+						r.Transitions.Add(8)
+						r.States.Add(1)
+						r.Distinct.Add("many|" + c.Loc)
+						if ok, sig, detail := c05Eval(c); !ok {
+							r.Fail(engine.Failure{Sig: sig, Case: c, Detail: detail, Size: len(c.Loc)})
+						}
+					}
+				}
+				r.Extra["many_parts_completed"] = maxParts
+			}
 			// values that only struct literals can build (the parser folds them): complement of an all-complement join, double complement
 			{
 				L := 4
